@@ -10,6 +10,8 @@ CHECK = {
         {"fn": P + "vC04_segmented", "replay": "model-only", "may_be_unreachable": ("a rejected message is never dequeued",)},
         {"fn": P + "vC04_nonblocking", "replay": "model-only", "cover_optional": ("rejected",)},
         {"fn": P + "vC04_fair", "replay": "model-only", "may_be_unreachable": ("a rejected message is never dequeued",), "opts": {"substitute": {P + "deriveSenderKey": P + "vC04_senderKey", P + "senderLoadOrStore": P + "vC04_loadOrStore"}}},
+        {"fn": P + "vC04_boundedPriority", "replay": "model-only"},
+        {"fn": P + "vC04_priorityOrder", "opts": {"feasibility": True, "unwind": 6, "unwind_mode": "assert"}},
     ],
     "opts": {"rounds": 3, "unwind": 3, "unwind_mode": "assume", "feasibility": False,
              "loop_bounds": {P + "vC04_scenario$3": 5, P + "vC04_scenario": 8}},
